@@ -806,7 +806,10 @@ fn out_codes(toks: &[vmh::Tok]) -> Vec<i64> {
 }
 
 pub fn run_event(toks: &[T], src: &str) -> Value {
-    run_event_named(&tjson_seq(toks), src, &[])
+    let mut ev = run_event_named(&tjson_seq(toks), src, &[]);
+    // the source line as character codes: the specification of the lexer reads it (Trace_TexVM!SourceLexesTo)
+    ev["lines"] = json!([src.chars().map(|c| c as u32).collect::<Vec<_>>()]);
+    ev
 }
 
 /// `extra`: names of user control sequences beyond NAMES, for the report of unexpanded commands.
@@ -861,7 +864,9 @@ pub fn run_event_cut(toks: &[T], cut: usize, fmt: u8) -> Option<Value> {
     let r1 = vmh::run_src::<vmh::HStrict>(&mut vm, "one.tex", &src1, 4_000);
     let err1 = vmh::first_err_at();
     let mut out = out_codes(&r1.toks);
+    let codes = |t: &str| t.chars().map(|c| c as u32).collect::<Vec<_>>();
     let mut ev = json!({"prog": tjson_seq(toks), "src": format!("{src1}\n{src2}"), "cut": ntok1, "fmt": fmt,
+                        "lines": [codes(&src1), codes(&src2)],
                         "errat": err1, "fatal": 0, "budget": 0, "finals": []});
     let mut done = |ev: &mut Value, out: &[i64]| {
         ev["out"] = json!(out);
